@@ -216,6 +216,13 @@ class HarnessGen:
             for i in range(self.K):
                 inm = self.new_input(et, '%s[%d]' % (nm, i))
                 L.append('  QX_INPUT(%s, %s); if (%d < (%s)) ((%s *)%s)[%d] = %s;' % (et.cast(), inm, i, cnt, et.cast(), nm, i, inm))
+        for (lv, cnt, ety) in spec.get('obj_buffers', []):
+            et = self.lw.ctype(ety)
+            L.append('  __CPROVER_assume((%s) <= %d);' % (cnt, self.K))
+            L.append('  %s = malloc(((__CPROVER_size_t)(%s)) * sizeof(%s));' % (lv, cnt, et.cast()))
+            for i in range(self.K):
+                inm = self.new_input(et, '%s[%d]' % (lv, i))
+                L.append('  QX_INPUT(%s, %s); if (%d < (%s)) ((%s *)%s)[%d] = %s;' % (et.cast(), inm, i, cnt, et.cast(), lv, i, inm))
         for s in spec.get('harness_setup', []):
             L.append('  ' + s)
         for r in spec.get('requires', []):
@@ -308,6 +315,9 @@ static int qx_failed = 0;
 #define __CPROVER_assume(c) do { if (!(c)) { printf("QX-ASSUME-FALSE %s\n", #c); exit(3); } } while (0)
 #define __CPROVER_assert(c, m) do { if (!(c)) { printf("QX-ASSERT-FAILED %s\n", m); qx_failed = 1; } } while (0)
 #define __CPROVER_size_t size_t
+#define __CPROVER_w_ok(p, n) 1
+#define __CPROVER_r_ok(p, n) 1
+#define __CPROVER_same_object(a, b) 1
 #define QX_INPUT(T, n) n = (T)QX_VAL_##n
 #define QX_FIXED(T, n, v) n = (T)QX_VAL_##n
 #define QX_CANARY()
